@@ -345,15 +345,28 @@ def fix_line_lengths(source: str, *, max_line_length: int = 100) -> str:
         subscopes.append(getattr(scope, "orelse", []))
         subscopes.append(getattr(scope, "finalbody", []))
 
+    docstrings = {
+        scope.body[0]
+        for scope in core.walk(
+            root, (ast.Module, ast.ClassDef, ast.FunctionDef, ast.AsyncFunctionDef)
+        )
+        if ast.get_docstring(scope, clean=False) is not None
+    }
+
     for node in itertools.chain.from_iterable(subscopes):
         if node in formatted_nodes:
             continue
+
+        if core.match_template(node, ast.Expr(value=ast.Constant(value=str))):
+            if node not in docstrings:
+                continue  # On its own it would be taken for a docstring, and be stripped
 
         source_range = core.get_charnos(node, source, keep_first_indent=True)
         if any(source_range & r for r in formatted_ranges):
             continue
 
         current_code = source[source_range.start : source_range.end]
+        original_code = current_code
 
         indent = formatting.indentation_level(current_code)
         if indent > 0:
@@ -380,6 +393,13 @@ def fix_line_lengths(source: str, *, max_line_length: int = 100) -> str:
 
         new_code = formatting.collapse_trailing_parentheses(new_code)
         if new_code != formatting.collapse_trailing_parentheses(current_code):
+            # The steps above work on text, and know nothing of the lines of a string literal
+            if not core.keeps_syntax_tree(
+                re.sub(elif_pattern, r"\g<1>\g<3>", original_code, 1),
+                re.sub(elif_pattern, r"\g<1>\g<3>", new_code, 1),
+            ):
+                continue
+
             yield source_range, new_code
             formatted_ranges.add(source_range)
 
